@@ -109,6 +109,8 @@ type Case struct {
 	Names []string   `json:"names,omitempty"` // the two endpoint names of this case
 	// token stream: rounds of connects with Siding on/off under a time-varying SideToken
 	Token []TokenObs `json:"token,omitempty"`
+	// token stream: which of the server's notification callbacks are configured: both | connect | disconnect | neither
+	Callbacks string `json:"callbacks,omitempty"`
 }
 
 // FrontObs is one round of the front stream: a live endpoint answers the dial
@@ -1224,7 +1226,7 @@ func runToken(c *Case) {
 	var reqs []*req
 	var tokenErr atomic.Bool
 	arrived := make(chan *sniproxy.VerifClient, 8)
-	srv := sniproxy.NewServer(&sniproxy.ServerConfig{
+	cfg := &sniproxy.ServerConfig{
 		Lookup: func(domain string) (*sniproxy.Dest, error) {
 			if domain == "site.com" {
 				return &sniproxy.Dest{Name: names[0]}, nil
@@ -1237,19 +1239,26 @@ func runToken(c *Case) {
 			}
 			return "tok", nil
 		},
-		OnConnect: func(user string) int64 {
+	}
+	// the callback configuration of this history (ServerConfig documents:
+	// without OnConnect, OnDisconnect is called with session 0)
+	if c.Callbacks == "" || c.Callbacks == "both" || c.Callbacks == "connect" {
+		cfg.OnConnect = func(user string) int64 {
 			mu.Lock()
 			defer mu.Unlock()
 			sess++
 			notes = append(notes, Note{K: "connect", N: nameIndex(user), S: sess})
 			return sess
-		},
-		OnDisconnect: func(user string, s int64) {
+		}
+	}
+	if c.Callbacks == "" || c.Callbacks == "both" || c.Callbacks == "disconnect" {
+		cfg.OnDisconnect = func(user string, s int64) {
 			mu.Lock()
 			defer mu.Unlock()
 			notes = append(notes, Note{K: "disconnect", N: nameIndex(user), S: s})
-		},
-	})
+		}
+	}
+	srv := sniproxy.NewServer(cfg)
 	srv.VerifSetEndpointCallback(func(name string, cl *sniproxy.VerifClient) { arrived <- cl })
 	ts := httptest.NewServer(aries.Func(func(ac *aries.C) error {
 		ac.User = ac.Path
@@ -1722,10 +1731,11 @@ func main() {
 		if scripted != nil {
 			x := scripted[i]
 			return Case{I: i, Stream: x.Stream, Steps: x.Steps, Rounds: x.Rounds, Seed: x.Seed, Slow: x.Slow,
-				Names: x.Names}
+				Names: x.Names, Callbacks: x.Callbacks}
 		}
 		if i >= *n+*nfree+*nrace+*nsilent+*nfront {
-			return Case{I: i, Stream: "token", Steps: []Step{}, Rounds: 4, Seed: *seed}
+			return Case{I: i, Stream: "token", Steps: []Step{}, Rounds: 4, Seed: *seed,
+				Callbacks: []string{"both", "disconnect", "connect", "neither"}[(i-(*n+*nfree+*nrace+*nsilent+*nfront))%4]}
 		}
 		if i >= *n+*nfree+*nrace+*nsilent {
 			return Case{I: i, Stream: "front", Steps: []Step{}, Rounds: 3, Seed: *seed, Slow: *slow == 1}
